@@ -169,6 +169,20 @@ def check_finder(m, rng, tier):
         mixed = np.hstack([x[:, idx[:5]], out[:, :1], x[:, idx[5:9]]])
         fails += clause_outside(finder, mixed, vname + " outside point among inside points")
         fails += clause_outside(m.element_finder(**kw), out[:, ::-1], vname + " only outside points")
+    # DERIVED: meshes derived from a mesh whose finder HAS BEEN USED (refined, translated, scaled) locate points in their own cells
+    d = m.p.shape[0]
+    derived = [("translated", lambda q: q.translated((.37,) * d)), ("scaled", lambda q: q.scaled((1.5,) + (.75,) * (d - 1)))]
+    if hasattr(m, "refined") and type(m).__name__ != "MeshWedge1" and m.t.shape[1] <= 64:
+        derived.append(("refined", lambda q: q.refined(1)))
+    for dname, mk in derived:
+        try:
+            md = mk(m)
+            hd = Hull(md)
+            xd, kd_ = make_points(md, hd, rng, 12, 0, 0)
+            reld = hd.inward(xd)[1]
+            fails += clause_contains(md.element_finder(), xd, reld, "finder of m.%s() after m's own finder was used" % dname)
+        except NotImplementedError:
+            pass
     return fails, dict(points=int(x.shape[1]), certainly_in_domain=int(must.sum()), outside=int(out.shape[1]))
 
 
@@ -288,7 +302,11 @@ def extra_meshes():
     centre = lambda c: (abs(c[0] - .5) < .25) & (abs(c[1] - .5) < .25)                              # noqa: E731
     corner = lambda c: (c[0] > .5) & (c[1] > .5)                                                    # noqa: E731
     tri = fem.MeshTri.init_tensor(g, h)
+    # boundary layer: two huge cells next to a band of > 150 tiny ones (more cells than any fixed-size neighbour search looks at)
+    bl = np.concatenate([[0.], .875 + np.arange(81) / 640.])
     return [("line-graded", fem.MeshLine(A([0., 1 / 64, 1 / 8, .5, 2.]))),
+            ("tri-boundary-layer", fem.MeshTri.init_tensor(bl, A([0., 1.]))),
+            ("quad-boundary-layer", fem.MeshQuad.init_tensor(bl, A([0., 1.]))),
             ("tri-graded-aniso", tri),
             ("tri-graded-sheared", warp(tri, lambda p: A([p[0] + .5 * p[1], p[1]]))),
             ("tri-hole", drop(fem.MeshTri.init_tensor(u, u), centre)),
